@@ -597,13 +597,28 @@ def _body_mentions_char(body, ch):
 
 def _closure_defs(b, op):
     """closure bodies an operand may denote (closure aggregates in its slice)"""
-    l = operand_local(op)
     out = set()
-    if l is None:
-        return out
-    for i, j, s in b.assigns():
-        if s["lhs"]["l"] == l and not s["lhs"]["p"] and s["rv"]["k"] == "agg" and s["rv"].get("ak") == "closure":
-            out.add(s["rv"].get("def"))
+    if isinstance(op, dict) and op.get("k") == "const" and op.get("closure"):
+        out.add(op["closure"])           # a closure without captures used as a value
+    seen, work = set(), [operand_local(op)]
+    while work:                          # through plain copies / moves / reborrows of a named closure (`let is_text = |c| ..; buf.retain(is_text)`)
+        l = work.pop()
+        if l is None or l in seen or len(seen) > 12:
+            continue
+        seen.add(l)
+        for i, j, s in b.assigns():
+            if s["lhs"]["l"] != l or s["lhs"]["p"]:
+                continue
+            rv = s["rv"]
+            if rv["k"] == "agg" and rv.get("ak") == "closure":
+                out.add(rv.get("def"))
+            elif rv["k"] == "use" and isinstance(rv["op"], dict):
+                if rv["op"].get("k") == "const" and rv["op"].get("closure"):
+                    out.add(rv["op"]["closure"])
+                elif rv["op"].get("k") in ("copy", "move") and not [e for e in rv["op"]["place"]["p"] if e != "*"]:
+                    work.append(rv["op"]["place"]["l"])
+            elif rv["k"] in ("ref", "copyderef") and not [e for e in rv["place"]["p"] if e != "*"]:
+                work.append(rv["place"]["l"])
     return out
 
 
